@@ -65,6 +65,8 @@ CURATED_TEXT = {
 'choice_shared': "token A B C; start s; s: (t B / t C) t; t: A;",
 'choice_err_pending': "token A B C D; start s; s: A (B C / D);",
 'choice_three': "token A B C D E; start s; s: (A B / A C / A D) E;",
+'choice_loop_distinct': "token A B C D E; start s; s: (A B / C D)* E;",
+'choice_opt_distinct': "token A B C D E; start s; s: [A B / C D] E;",
 'choice_loop': "token A B C D; start s; s: (A B* C / A B* D)* D;",
 'choice_assert': "token A B C D; start s; s: (A !1 B / A B C) D;",
 'choice_readme': "token Id Num Eq Semi LPar RPar Ws; skip Ws; start top; top: stmt; stmt^: decl_stmt / expr_stmt; decl_stmt: type Id ~ [Eq expr] Semi; expr_stmt: expr Semi; expr: Id | Num | LPar (type RPar !1 ~ expr / expr RPar); type: Id;",
@@ -199,6 +201,34 @@ def coverage_family():
         g = parse_simple(t, name='cov_' + n); g.meta['family'] = 'coverage'; out.append(g)
     return out
 
+# ---------------------------------------------------------------- parts x constructs family
+def parts_family():
+    """every construct family also as (or inside) a `part` entry point: parts run with their own end-of-input token, start
+    in the middle of the start rule's language and may be nullable"""
+    bodies = {
+        'choice': 'p: A (B C / B D);',
+        'choice_distinct': 'p: (A B / C D) [A];',
+        'star': 'p: C*;',
+        'opt_loop': 'p: [D] (C D)*;',
+        'plus': 'p: (A B)+;',
+        'pred_nullable': 'p: ?1 [A] C | D;',
+        'pratt': 'p: p C p | p D | A;',
+        'create': 'p: <1 A [C 1>ac] D;',
+        'elide': 'p: A (C ^ | D);',
+        'inner_rule': 'p: q D; q: A C* ;',
+        'ret': 'p: A & C* D;',
+    }
+    uses = {'mid': 's: B p B;', 'loop': 's: (B p)* ;', 'twice': 's: p B p;'}
+    out = []
+    for bn, body in bodies.items():
+        for un, use in uses.items():
+            if un != 'mid' and bn not in ('choice', 'star', 'opt_loop', 'inner_rule'): continue
+            txt = f'token A B C D Ws; skip Ws; start s; part p; {use} {body}'
+            try: g = parse_simple(txt, name=f'part_{bn}_{un}')
+            except SyntaxError: continue
+            g.meta['family'] = 'parts'; out.append(g)
+    return out
+
 # ---------------------------------------------------------------- error recovery x tree insertion family
 def recovery_family():
     """constructs that can swallow garbage (option / loop) directly in front of every user of CstData::open_before
@@ -257,10 +287,10 @@ def _regex(g, depth, rules, cur):
         return seq(*parts)
     if r < 0.70: return alt(*[_regex(g, depth - 1, rules, cur) for _ in range(rng.choice([2, 2, 3]))])
     if r < 0.76 and g.rich == 2:
-        x = tok(rng.choice(TOKS))
+        x = tok(rng.choice(TOKS)); y = x if rng.random() < 0.6 else tok(rng.choice(TOKS))
         a = _regex(g, depth - 1, rules, cur); b = _regex(g, depth - 1, rules, cur)
         first = [x, a] + ([COMMIT] if rng.random() < 0.4 else [])
-        return choice(seq(*first), seq(x, b))
+        return choice(seq(*first), seq(y, b))
     body = _regex(g, depth - 1, rules, cur)
     if g.rich and rng.random() < 0.15 and body[0] == 'tok':
         g.pred += 1; body = seq(pred(g.pred), body)
